@@ -127,6 +127,12 @@ class WirePropagateManager(WireManagerBase):
     def update(self):
         super().update()
 
+    @property
+    def is_defined(self) -> bool:
+        """Gradings copied from coincident wires alone do not define this axis:
+        it must also hold the chops its other neighbours will copy from it"""
+        return len(self.chops) > 0 and super().is_defined
+
     def grade(self):
         """Checks each wire whether their coincidents (wires from other blocks)
         have grading defined already; if so, copy it and return True.
